@@ -870,16 +870,13 @@ func (r *runningStep) executeSubWorkflows(input executeInput) ([]any, map[int64]
 		i := i
 		input := input
 		go func() {
-			defer func() {
-				select {
-				case <-sem:
-				case <-r.ctx.Done(): // Must not deadlock if closed early.
-				}
-				wg.Done()
-			}()
+			defer wg.Done()
 			r.logger.Debugf("Queuing item %d...", i)
 			select {
 			case sem <- struct{}{}:
+				// Only an item that holds a slot gives one back: an aborted item must not take the slot
+				// of an item that is still running, or more than parallelism items run after a close.
+				defer func() { <-sem }()
 			case <-r.ctx.Done():
 				r.logger.Debugf("Aborting item %d execution.", i)
 				// An item that never ran is a failed item; without an entry here the loop
